@@ -8,6 +8,7 @@ func init() {
 			ruleEffect(r)
 			ruleLocks(r)
 			ruleByteAPICopies(r)
+			ruleAllocBounded(r)
 			ruleValueBuffersImmutable(r)
 			rulePoolPutOnce(r)
 		})
